@@ -92,8 +92,9 @@ fn expect_side(k: usize) -> Vec<Option<Value>> {
         // same value, the other value, changed case, one trailing blank
         "iss" | "sub" => vec![None, Some(json!("Alice")), Some(json!("Bob")), Some(json!("alice")), Some(json!("Alice "))],
         // same, other, the same digits in another JSON type, changed case
-        "a" => vec![None, Some(json!("v")), Some(json!(4)), Some(json!("4")), Some(json!("V"))],
-        _ => vec![None, Some(json!(true)), Some(json!([1])), Some(json!("true")), Some(json!([1, 2]))],
+        // ... and an expectation whose value serialises to null: no payload can satisfy it
+        "a" => vec![None, Some(json!("v")), Some(json!(4)), Some(json!("4")), Some(json!("V")), Some(Value::Null)],
+        _ => vec![None, Some(json!(true)), Some(json!([1])), Some(json!("true")), Some(json!([1, 2])), Some(Value::Null)],
     }
 }
 
@@ -145,8 +146,8 @@ fn product_unit(prop: &str, proto: Proto, flavor: Flavor, e0: usize, quick: bool
     };
     let (_, pts) = explore(None, |c| {
         let mut e_idx = vec![e0];
-        for _ in 1..nk {
-            e_idx.push(c.choose("expectation", 5));
+        for k in 1..nk {
+            e_idx.push(c.choose("expectation", es[k].len()));
         }
         let mut ops: Vec<POp> = Vec::new();
         let mut expected: Vec<(usize, Value)> = Vec::new();
